@@ -13,7 +13,8 @@ THEOREMS = ['Otel.C07.' + t for t in (
     'doubleMinInit_eq', 'doubleMaxInit_eq', 'longMinInit_eq', 'longMaxInit_eq',
     'long_default_boundaries', 'double_default_boundaries', 'default_boundaries_sorted', 'recordMinMax_defaults',
     'conv_double', 'conv_long_exact', 'bucket_spec_long_partial', 'bucket_spec_long_witness',
-    'merge_hom', 'merge_new_left', 'mergeL_hom', 'mergeR_hom', 'hist_perm')]
+    'merge_hom', 'merge_new_left', 'mergeL_hom', 'mergeR_hom', 'hist_perm',
+    'storage_conserves_count', 'storage_conserves_sum')]
 HARNESSES = [Harness('s_c07', ['harness/s_c07.cc'], sdk_srcs=sdk_sources('common', 'resource', 'version', 'metrics'),
                      includes=SDK_INCLUDES)]
 H = 's_c07'
@@ -249,9 +250,9 @@ def gen_malformed(rng, out, n):
 def generate(rng, tier):
     big = tier == 'thorough'
     out = []
-    gen_agg(rng, out, 150000 if big else 3500)
-    gen_sdk(rng, out, 40000 if big else 1200)
-    gen_long_beyond_2_53(rng, out, 200 if big else 20)
+    gen_agg(rng, out, 400000 if big else 20000)
+    gen_sdk(rng, out, 100000 if big else 5000)
+    gen_long_beyond_2_53(rng, out, 400 if big else 40)
     gen_malformed(rng, out, 32)
     return out
 
@@ -404,6 +405,7 @@ LEVEL_NOTE = ('Trusted: Lean kernel; tools/gen_c07.py; harness, generators; std:
               'Partial: floating-point rounding of sum_ and int64 overflow are not modelled (sum compared only in the exact range); '
               'for int64 instruments a value beyond 2^53 is rounded to double before the boundary comparison '
               '(bucket_spec_long_partial + _witness, finding bucket-of-int64-beyond-2^53); the storage-level path (cycles, readers) '
-              'is tied by the differential run and by mergeL_hom/hist_perm, its own invariants are C06/C08 theorems.')
+              'is tied by the differential run; storage_conserves_count / storage_conserves_sum carry count and sum through every '
+              'history of cycles and readers (totals over the series), per-series exactness is mergeL_hom + hist_perm.')
 DESIGN_REF = 'DESIGN.md section 4, C07'
 TECHNIQUE = 'proof (Lean 4) + correspondence'
